@@ -149,6 +149,8 @@ class NPFacade(types.ModuleType):
         a = list(a)
         if len(a) == 0:
             return _obj_array((0,))
+        if all(isinstance(x, _np.ndarray) and x.dtype != object for x in a):
+            return _np.array(a, dtype=dtype)
         if all(isinstance(x, _np.ndarray) for x in a):
             shp = a[0].shape
             r = _obj_array((len(a),) + shp)
